@@ -67,6 +67,7 @@ class C13(CaseCheck):
         n = 400 if tier == "quick" else 8000
         cases = [self.gen_case(rng, malformed=(i % 9 == 8)) for i in range(n)]
         cases += self.boundary_cases(rng)
+        cases += [self.app_case(rng, i) for i in range(4 if tier == "quick" else 40)]
         return cases
 
     def gen_case(self, rng, malformed=False):
@@ -238,7 +239,79 @@ class C13(CaseCheck):
     def strip_model(l):
         return l.split(" orderdep=", 1)[0]
 
+    # ------------------------------------------------------------------ App-level family (monitor only)
+    # The re-cost decision is taken by the App (recost flag set while a block with FeeChange / FeeAssetChange
+    # executes, passed to run_maintenance after finalization), outside the Mempool the hook above drives.  These
+    # cases go through the real App + mempool via the C06 hook (app::verif_c06::drive): a ready transaction that
+    # the block's fee change makes unaffordable must have left the ready queue before the next proposal is built.
+    @staticmethod
+    def is_app_case(case):
+        return case[0].startswith("case apprecost")
+
+    def app_case(self, rng, idx):
+        n = 500000 + 100 * idx
+        poor = rng.randint(25, 60)
+        amt = poor - rng.randint(3, 8)            # affordable with the genesis transfer fee (base 2), not with the new one
+        newfee = rng.randint(12, 40)
+        kinds = ["rollup", "lock", "unlock", "initbridge", "sudochange"]
+        l = ["case apprecost-%d" % idx,
+             "genesis acct=a0:1000000000,a1:1000000000,a2:%d,a3:1000000000 sudo=a0" % poor, "advance 4"]
+        sudo_txs = ["tx r%d a0 0 feechange kind=transfer base=%d mult=0" % (n, newfee)]
+        k = 0
+        for k in range(rng.randint(0, 2)):       # further fee-changing transactions
+            if rng.random() < 0.5:
+                sudo_txs.append("tx r%d a0 %d feechange kind=%s base=%d mult=%d" % (n + 1 + k, 1 + k, rng.choice(kinds), rng.randint(1, 9), rng.randint(0, 3)))
+            else:
+                sudo_txs.append("tx r%d a0 %d feeasset add=s%d" % (n + 1 + k, 1 + k, 1 + k % 3))
+        if idx % 4 != 3:                         # ... and a NOT fee-changing one executing last (the sudo groups execute after the general ones; unbundleable sudo last)
+            m = len(sudo_txs)
+            sudo_txs.append("tx r%d a0 %d ibcsudo to=a%d" % (n + 30, m, 1 + idx % 3))   # UnbundleableSudo: the last group
+        if rng.random() < 0.5:                   # a general transaction (executes first: general groups come first)
+            sudo_txs.append("tx r%d a3 0 transfer to=a1 amt=%d asset=s0 fee=s0" % (n + 40, rng.randint(1, 1000)))
+        l += sudo_txs
+        l += ["ins " + " ".join(t.split()[1] for t in sudo_txs), "prepare max=100000", "process",
+              "tx r%d a2 0 transfer to=a1 amt=%d asset=s0 fee=s0" % (n + 50, amt),
+              "ins r%d" % (n + 50),              # admitted as ready at the committed (old-fee) state
+              "finalize",                        # commits the block; the mempool is maintained with the App's recost flag
+              "prepare max=100000", "process", "finalize"]
+        return l
+
+    def app_monitor(self, case, il):
+        fails = []
+        poor_tx = next(l.split()[1] for l in case if " a2 0 transfer " in l)
+        prepares = [l for l in il if l.startswith("prepare ")]
+        queues = [l for l in il if l.startswith("queue ")]
+        for l in il:
+            if l.endswith(" panic") or " panic " in l:
+                fails.append("app: panic %r" % l)
+        if len(prepares) < 2 or not prepares[0].startswith("prepare ok") or not prepares[1].startswith("prepare ok"):
+            return fails      # premise not met (nothing is demanded)
+        admitted = any(l.startswith("ins %s pending" % poor_tx) for l in il)
+        if not admitted:
+            return fails
+        q2 = queues[1].split()[1] if len(queues) > 1 and len(queues[1].split()) > 1 else "-"
+        kv = dict(x.split("=", 1) for x in prepares[1].split()[2:] if "=" in x)
+        if poor_tx in q2.split(",") or poor_tx in kv.get("removed", "-").split(","):
+            fails.append("affordable: app: after a block that raised the transfer fee, %s (balance no longer covers amount + fee) was still "
+                         "ready for the next proposal (queue=%s removed=%s)" % (poor_tx, q2, kv.get("removed")))
+        return fails
+
     def evaluate(self, cases):
+        app = [c for c in cases if self.is_app_case(c)]
+        cases = [c for c in cases if not self.is_app_case(c)]
+        out_app = []
+        if app:
+            text = "\n".join("\n".join(c) for c in app) + "\n"
+            ai = split_cases(run_harness("astria-sequencer", "app::verif_c06::drive", text, "c13app", timeout=3000))
+            if len(ai) != len(app):
+                raise TieBroken("app harness returned %d cases for %d" % (len(ai), len(app)))
+            for c, il in zip(app, ai):
+                out_app.append((c, il, None, [("monitor", w) for w in self.app_monitor(c, il)]))
+        if not cases:
+            return out_app
+        return self.evaluate_mempool(cases) + out_app
+
+    def evaluate_mempool(self, cases):
         impl = self.impl(cases)
         if len(impl) != len(cases):
             raise TieBroken("harness returned %d cases for %d" % (len(impl), len(cases)))
@@ -365,6 +438,8 @@ class C13(CaseCheck):
 
     # ------------------------------------------------------------------ evidence helpers
     def nontrivial(self, case, il):
+        if self.is_app_case(case):
+            return any(l.startswith("prepare ok") for l in il)
         prev = {}
         for l in il[1:]:
             ops, res, d = parse(l)
@@ -377,6 +452,14 @@ class C13(CaseCheck):
         return False
 
     def stats(self, cases, impl):
+        pairs = [(c, il) for c, il in zip(cases, impl) if not self.is_app_case(c)]
+        n_app = len(cases) - len(pairs)
+        cases, impl = [c for c, _ in pairs], [il for _, il in pairs]
+        r = self._stats_mempool(cases, impl)
+        r["app_level_recost_cases"] = n_app
+        return r
+
+    def _stats_mempool(self, cases, impl):
         c = Counter()
         for il in impl:
             prev = {}
